@@ -124,6 +124,9 @@ AXES_DECL = [
     # 1 / 2: the second tag of every site has the first tag's key in another letter case / with a blank for the underscore
     # 3: the second tag has the first tag's key and the first tag's value in the other Unicode normalisation form (NFC / NFD)
     ("tags.key_case", (0, 1, 2, 3), 0, 0, 0, ALL),
+    # 1: free-text fields carry leading / trailing white space (a note ending in a newline, a value with a trailing blank), and the
+    # second tag of every site is the first tag's value plus a trailing blank
+    ("text.padded", _B, 0, 0, 0, ALL),
     ("feat.zero_value", (0, 1, 2), 0, 0, 0, ALL),
     ("time.tz_aware", _B, 0, 0, 0, ALL),
     # ---- configuration
@@ -199,7 +202,7 @@ class Universe:
                 uuid=U(name),
                 username=[None, "user_" + name, ""][c["user.username"]],
                 email=("a%d@example.org" % i) if c["user.email"] else None,
-                name=("Name " + name) if c["user.name"] else None,
+                name=(("Name " + name) if not c["text.padded"] else (" Name " + name + " ")) if c["user.name"] else None,
                 institution=[None, "Inst", ""][c["user.institution"]],
             )
         return self.get(name, make)
@@ -210,6 +213,8 @@ class Universe:
         # within one site: same key, different values; across sites: different keys, same values
         key = "key_" + site_name
         value = "val %d" % i
+        if self.c["text.padded"] and i % 2 == 1:
+            value = "val %d " % (i - 1)
         if self.c["tags.key_case"] == 3:
             value = ["caf\u00e9 %d", "cafe\u0301 %d"][i % 2] % (i // 2)
         elif self.c["tags.key_case"] and i % 2 == 1:
@@ -244,7 +249,7 @@ class Universe:
 
         def make():
             return data.Note(
-                uuid=U(name), message="msg " + name,
+                uuid=U(name), message=("msg " + name) if not c["text.padded"] else ("  msg " + name + "\n"),
                 created_by=self.user("note", i) if c["note.created_by"] else None,
                 is_issue=bool(c["note.is_issue"]), created_on=self.dt2,
             )
@@ -269,7 +274,7 @@ class Universe:
                 time=datetime.time(1, 2, 3 + i) if c["rec.time"] else None,
                 latitude=[None, 1.5 + i, 0.0][c["rec.latitude"]],
                 longitude=(-2.25 - i) if c["rec.longitude"] else None,
-                license=("CC-BY %d" % i) if c["rec.license"] else None,
+                license=(("CC-BY %d" % i) if not c["text.padded"] else ("CC-BY %d \n" % i)) if c["rec.license"] else None,
                 rights=[None, "rights %d" % i, ""][c["rec.rights"]],
                 owners=[self.user("owner", j) for j in range(c["rec.owners"])],
                 tags=self.tags("rec", c["rec.tags"]),
